@@ -7,6 +7,7 @@ import Parsley.Spec.Peg
   case   : `<tag> <expr> <hexbuf> <pos>`
            expr (prefix, no blanks):  `.`XY seq   `|`XY alt   `*`X star   `!`X not
                                        `U` any-ascii   `=hh` byte == hh   `~hh` byte != hh   `[llhh` ll <= byte <= hh
+                                       `^`G  raw operand with guard G (consumes the byte even when the guard rejects it)
   output : `ok <tree> <cursor>` | `err <kind> <cursor>` | `panic <site> <cursor>` | `hang <cursor>` | `skip`
            tree: `(c hh s e)` `(p A B s e)` `(l A s e)` `(r A s e)` `(s A1 … An s e)` `(u s e)`
 -/
@@ -24,7 +25,8 @@ def showGuard : Guard → String
   | .range lo hi => "[" ++ hex2 lo ++ hex2 hi
 
 def showE : E → String
-  | .chr g => showGuard g
+  | .chr g false => showGuard g
+  | .chr g true => "^" ++ showGuard g
   | .seq a b => "." ++ showE a ++ showE b
   | .alt a b => "|" ++ showE a ++ showE b
   | .star a => "*" ++ showE a
@@ -37,6 +39,10 @@ def byteOf (a b : Char) : Option UInt8 :=
 
 def parseE : Nat → List Char → Option (E × List Char)
   | 0, _ => none
+  | k + 1, '^' :: t =>
+    match parseE k t with
+    | some (.chr g false, t) => some (.chr g true, t)
+    | _ => none
   | _ + 1, 'U' :: t => some (.chr .any, t)
   | _ + 1, '=' :: a :: b :: t => (byteOf a b).map fun x => (.chr (.eq x), t)
   | _ + 1, '~' :: a :: b :: t => (byteOf a b).map fun x => (.chr (.ne x), t)
@@ -175,7 +181,9 @@ def judge (case impl : String) : String :=
     | some none =>
       match words impl with
       | ["err", _, cur] =>
-        if cur == toString c.i then "ok" else s!"bad cursor-after-failure expected={c.i} got={cur}"
+        -- a bare raw operand is no combinator: it may leave the cursor moved
+        if cur == toString c.i || c.e.isRaw then "ok"
+        else s!"bad cursor-after-failure expected={c.i} got={cur}"
       | "ok" :: _ => "bad accept-should-fail expected=failure"
       | "panic" :: _ => "bad panic expected=failure"
       | _ => s!"bad malformed-output {impl}"
@@ -219,9 +227,12 @@ def stringsUpTo (al : List UInt8) (n : Nat) : List Bytes :=
 
 def abc : List UInt8 := [97, 98, 99]
 
+def leavesRaw : List E := [.chr (.eq 97) true, .chr (.eq 98) true, .chr (.eq 99)]
+
 def randLeaf (r : Rng) (rich : Bool) : E × Rng :=
-  let (k, r) := r.nat (if rich then 10 else 3)
+  let (k, r) := r.nat (if rich then 13 else 3)
   match k with
+  | 10 => (.chr (.eq 97) true, r) | 11 => (.chr (.ne 98) true, r) | 12 => (.chr (.range 97 98) true, r)
   | 0 => (.chr (.eq 97), r) | 1 => (.chr (.eq 98), r) | 2 => (.chr (.eq 99), r)
   | 3 => (.chr .any, r) | 4 => (.chr (.ne 97), r) | 5 => (.chr (.range 97 98), r)
   | 6 => (.chr (.ne 99), r) | 7 => (.chr (.range 98 200), r)
@@ -293,6 +304,14 @@ def gen (seed n : Nat) (tier : String) (emit : String → IO Unit) : IO Unit := 
     if StarBodiesConsume e then
       for s in stringsUpTo abc 3 do
         emitCase emit "xo" e ([99, 97] ++ s) 2
+  -- raw operands (they do not restore the cursor when their guard rejects): every restore the
+  -- combinators perform themselves becomes observable
+  let dr := if thorough then 2 else 1
+  let Lr := if thorough then 4 else 4
+  for e in exprsUpTo leavesRaw dr do
+    if StarBodiesConsume e && !e.isRaw then
+      for s in stringsUpTo abc Lr do
+        emitCase emit "xr" e s 0
   -- (2) sampled: depth-2 (quick) and depth-3 expressions over a,b,c × strings ≤ 6
   let mut r := Rng.mk' seed
   let d2 := (exprsUpTo leavesABC 2).filter StarBodiesConsume
@@ -329,7 +348,7 @@ def gen (seed n : Nat) (tier : String) (emit : String → IO Unit) : IO Unit := 
 /-! ### non-triviality -/
 
 def nodes : E → Nat
-  | .chr _ => 0
+  | .chr _ _ => 0
   | .seq a b | .alt a b => nodes a + nodes b + 1
   | .star a | .not a => nodes a + 1
 
